@@ -1,5 +1,6 @@
 import NodisVerif.Wire
 import NodisVerif.Model.Api
+import NodisVerif.Model.Handler4
 /- driver commands for the API-level correspondence: `api <Method> <tokens…> now=<ms> [choice=…]` -/
 namespace NodisVerif.Driver
 open Wire
@@ -66,6 +67,14 @@ def pairsB : List Bytes → List (Bytes × Bytes)
 /-- dedupe by key keeping the last value, as building a Go map from pairs does -/
 def mapOfPairs (ps : List (Bytes × Bytes)) : List (Bytes × Bytes) :=
   ps.foldl (fun (m : AList Bytes) (k, v) => AList.set m k v) []
+
+/-- `<member>:<longitude bits>:<latitude bits>` tokens of the GeoAdd family -/
+def geoItems (items : List Grp) : Option (List (Bytes × F64)) :=
+  items.mapM fun g => match g with
+    | .one t => (match t.splitOn ":" with
+      | [m, lo, la] => do pure ((← parseArg m), Handler4.geoScore (← hexToU64 lo) (← hexToU64 la))
+      | _ => none)
+    | _ => none
 
 open Api in
 def callApi (s : MState) (now : Int) (method : String) (gs : List Grp) (choice : Option (List Bytes)) : Option (MState × Out) :=
@@ -165,6 +174,12 @@ def callApi (s : MState) (now : Int) (method : String) (gs : List Grp) (choice :
   | "SRandMember", [k, n] => do pure (srandmember s now (← gB k) (← gI n) (choice.getD []))
   | "SMove", [a, b, m] => do pure (smove s now (← gB a) (← gB b) (← gB m))
   -- sorted sets
+  | "GeoAdd", k :: items => do
+    pure (Handler4.geoAdd s now (← gB k) (← geoItems items))
+  | "GeoAddNX", k :: items => do
+    pure (Handler4.geoAddNX s now (← gB k) (← geoItems items))
+  | "GeoAddXX", k :: items => do
+    pure (Handler4.geoAddXX s now (← gB k) (← geoItems items))
   | "ZAdd", [k, m, f] => do pure (zadd s now (← gB k) (← gB m) (← gF f))
   | "ZAddXX", [k, m, f] => do pure (zaddXX s now (← gB k) (← gB m) (← gF f))
   | "ZAddNX", [k, m, f] => do pure (zaddNX s now (← gB k) (← gB m) (← gF f))
@@ -202,7 +217,7 @@ def callApi (s : MState) (now : Int) (method : String) (gs : List Grp) (choice :
 
 /-- dump of the keyspace: name@deadline{value}; cold values are read from the backend.
     `live = some now`: only records whose deadline has not passed (the logical keyspace). -/
-def dumpState (s : MState) (live : Option Int := none) : String :=
+def dumpState (s : MState) (live : Option Int := none) (deadAt : Option Int := none) : String :=
   let ents : List (Bytes × Meta) := match live with
     | some now => s.index.filter fun (km : Bytes × Meta) => !km.2.expired now
     | none => s.index
@@ -212,6 +227,10 @@ def dumpState (s : MState) (live : Option Int := none) : String :=
       | none => match Store.loadValue s k m with
         | some (v, _) => dumpVal v
         | none => "unreadable"
+    -- an expired, not yet collected record: only its presence and deadline are compared (see the harness)
+    let v := match deadAt with
+      | some now => if m.expired now then "dead" else v
+      | none => v
     s!"{showBytes k}@{m.exp}" ++ "{" ++ v ++ "}"
   compact ((if live.isSome then "ldump " else "dump ") ++ joinWith " " parts)
 
